@@ -211,6 +211,7 @@ def _install_base(e):
                            (X.WebSocketTimeoutException, lambda c, old, a: z3.BoolVal(a["sock"] is not None), wire_same),
                            (UnicodeEncodeError, lambda c, old, a: z3.BoolVal(tag_of(a["data"]) == "str"), wire_same),
                            (OSError, lambda c, old, a: z3.BoolVal(a["sock"] is not None), wire_same)],
+                   normal_when=lambda c, old, a: z3.BoolVal(a["sock"] is not None),
                    modifies=lambda c, a: ["ghost:wire", "ghost:tx_calls"], havoc=ssend_havoc, props=("C12", "C08", "C01"),
                    doc="one frame chunk: wire' = wire ++ data[:result]; no sock => connection-closed without touching a transport"))
 
